@@ -608,15 +608,22 @@ def sweep_cases(planet, finder, variant, n):
         base["variant"] = variant
     span = n * STEP * period_of(planet, finder)
 
-    def build(j, at_end):
+    def build(j, at_end, ref, u):
         c = dict(base)
         if at_end == 1:
             j = J_LO
         elif at_end == 2:
             j = J_HI - span
+        elif at_end == 3:
+            # a sweep that straddles the reference epoch of the finder's series (event count
+            # k = 0, somewhere in 2000-2012, 2051 for Uranus' apsides), where a sign, truncation
+            # or cache-key slip in k shows
+            j = S.jde_from_year(ref) - u * span
         c["jde0"] = _clip(min(j, J_HI - 0.5 * span))
         return c
-    return st.builds(build, query_epochs(), st.sampled_from([0, 0, 0, 0, 0, 0, 1, 2]))
+    refs = st.one_of(st.floats(1999.5, 2004.0), st.sampled_from([2000.0, 2000.5, 2001.78, 2003.52, 2011.2, 2051.1]))
+    return st.builds(build, query_epochs(), st.sampled_from([0, 0, 0, 0, 0, 3, 3, 1, 2]), refs,
+                     st.floats(0.15, 0.85))
 
 
 def range_cases(planet, finder):
